@@ -1,6 +1,7 @@
 package props
 
 import (
+	"context"
 	"fmt"
 	"reflect"
 	"sort"
@@ -17,6 +18,12 @@ import (
 // the reference model's state; the full observation vector is compared in every state.
 
 var c10Keys = []string{"a", "b", "len"}
+
+var c10KeySets = map[string][]string{
+	"std": {"a", "b", "len"},
+	// names the engine itself uses for stored blocks, and the empty name, are keys like any other
+	"alt": {"contentFor:x", "", "len"},
+}
 
 const (
 	c10Unbound = iota
@@ -38,7 +45,7 @@ type c10Op struct {
 func (o c10Op) String() string {
 	switch o.kind {
 	case "root":
-		return fmt.Sprintf("root(%s)", []string{"NewContext", "NewContextWith({})", "NewContextWith({a:1})", "NewContextWith({len:1})", "NewContextWith({len:nil})"}[o.i])
+		return fmt.Sprintf("root(%s)", []string{"NewContext", "NewContextWith({})", "NewContextWith({a:1})", "NewContextWith({len:1})", "NewContextWith({len:nil})", "NewContextWithContext(WithValue(a,2))", "NewContextWithContext(WithValue(b,1),WithValue(len,1))"}[o.i])
 	case "new":
 		return fmt.Sprintf("c%d.New()", o.i)
 	}
@@ -52,13 +59,19 @@ type c10Ctx struct {
 	vars   [3]int
 }
 
-type c10Model struct{ ctxs []c10Ctx }
+type c10Model struct {
+	ctxs     []c10Ctx
+	fallback [3]int // what the Go context wrapped by the root answers, asked last
+}
 
 func (m *c10Model) value(i, k int) int {
 	for x := i; x >= 0; x = m.ctxs[x].parent {
 		if v := m.ctxs[x].vars[k]; v != c10Unbound {
 			return v
 		}
+	}
+	if m.fallback[k] != c10Unbound {
+		return m.fallback[k]
 	}
 	return c10Nil // no binding anywhere: nil
 }
@@ -86,6 +99,11 @@ func (m *c10Model) apply(o c10Op) {
 			c.vars[2] = c10One
 		case 4:
 			c.vars[2] = c10Nil
+		case 5:
+			m.fallback[0] = c10Two
+		case 6:
+			m.fallback[1] = c10One
+			m.fallback[2] = c10One
 		}
 		m.ctxs = append(m.ctxs, c)
 		// default helpers are injected only under names the user has not bound (a user's nil wins too)
@@ -131,6 +149,10 @@ func (im *c10Impl) apply(o c10Op) {
 			im.ctxs = append(im.ctxs, plush.NewContextWith(map[string]interface{}{"len": 1}))
 		case 4:
 			im.ctxs = append(im.ctxs, plush.NewContextWith(map[string]interface{}{"len": nil}))
+		case 5:
+			im.ctxs = append(im.ctxs, plush.NewContextWithContext(context.WithValue(context.Background(), c10Keys[0], 2)))
+		case 6:
+			im.ctxs = append(im.ctxs, plush.NewContextWithContext(context.WithValue(context.WithValue(context.Background(), c10Keys[1], 1), c10Keys[2], 1)))
 		}
 	case "new":
 		im.ctxs = append(im.ctxs, im.ctxs[o.i].New().(*plush.Context))
@@ -242,17 +264,20 @@ func init() {
 		Shards: func(th bool) []string {
 			// shard = root constructor x first operation
 			s := []string{"deep"}
-			for r := 0; r < 5; r++ {
+			for r := 0; r < 7; r++ {
 				m := &c10Model{}
 				m.apply(c10Op{"root", r, 0, 0})
 				for j := range c10Ops(m, 4) {
 					s = append(s, fmt.Sprintf("%d:%d", r, j))
+					if r == 0 || r == 5 {
+						s = append(s, fmt.Sprintf("%d:%d:alt", r, j))
+					}
 				}
 			}
 			return s
 		},
 		Run:  c10Run,
-		Rule: "explicit-state breadth-first search over histories of {root constructor in 5 variants (NewContext, NewContextWith {} / {a:1} / {len:1} / {len:nil}), ci.New() (<=4 contexts alive), ci.Set(k,v) with k in {a,b,len(built-in helper name)} and v in {1,2,nil}}; every transition calls the real API (successor = shortest history replayed on fresh objects + one operation); states are deduplicated on the reference model's state (parent vector + bindings, contexts numbered in creation order); every history is run twice - as is, and with every context and key read (Value and Has) just before its last operation, since reads are operations of the history too; in EVERY state the complete observation vector (Value and Has of every context x key) of the implementation is compared with the model (nearest binding wins, a binding to nil is a binding, Has = value != nil, built-in helper injected at construction only under a name that is not bound - to anything, nil included - along the chain, so that a user's binding of a helper name wins in that context and all descendants, whenever they are created). (deep) linear chains of 2..9 contexts, every pair of Set operations anywhere on the chain, with and without one more New at the bottom in between. Non-trivial: histories with >=2 contexts or a nil/len binding.",
+		Rule: "explicit-state breadth-first search over histories of {root constructor in 7 variants (NewContext, NewContextWith {} / {a:1} / {len:1} / {len:nil}, NewContextWithContext over a Go context that answers a / b and len - asked last, after every scope), ci.New() (<=4 contexts alive), ci.Set(k,v) with k in {a,b,len(built-in helper name)} (two roots also with the key names {contentFor:x, empty string, len}, one operation shallower) and v in {1,2,nil}}; every transition calls the real API (successor = shortest history replayed on fresh objects + one operation); states are deduplicated on the reference model's state (parent vector + bindings, contexts numbered in creation order); every history is run twice - as is, and with every context and key read (Value and Has) just before its last operation, since reads are operations of the history too; in EVERY state the complete observation vector (Value and Has of every context x key) of the implementation is compared with the model (nearest binding wins, a binding to nil is a binding, Has = value != nil, built-in helper injected at construction only under a name that is not bound - to anything, nil included - along the chain, so that a user's binding of a helper name wins in that context and all descendants, whenever they are created). (deep) linear chains of 2..9 contexts, every pair of Set operations anywhere on the chain, with and without one more New at the bottom in between. Non-trivial: histories with >=2 contexts or a nil/len binding.",
 		Bound: func(th bool) string {
 			if th {
 				return "histories of <=8 operations after the root constructor, <=4 contexts"
@@ -274,6 +299,11 @@ func c10Run(t *engine.T, shard string) {
 	if t.Thorough {
 		depth = 8
 	}
+	c10Keys = c10KeySets["std"]
+	if strings.HasSuffix(shard, ":alt") {
+		c10Keys = c10KeySets["alt"]
+		depth--
+	}
 	root := c10Op{"root", r, 0, 0}
 	m0 := &c10Model{}
 	m0.apply(root)
@@ -292,7 +322,7 @@ func c10Run(t *engine.T, shard string) {
 			}
 		}
 		t.Edge(1)
-		t.Case("history "+c10HistString(hh), nontrivial, func() (string, *engine.Fail) {
+		t.Case("history "+strings.Join(c10Keys, ",")+" "+c10HistString(hh), nontrivial, func() (string, *engine.Fail) {
 			c, m, f := c10Check(hh)
 			model = m
 			return c, f
@@ -333,6 +363,7 @@ func c10Run(t *engine.T, shard string) {
 // c10Deep: linear chains of up to 9 contexts (scopes nest deeply in real templates); after the chain is built, every
 // sequence of two Set operations anywhere on it - before and after one more New at the bottom - against the model.
 func c10Deep(t *engine.T) {
+	c10Keys = c10KeySets["std"]
 	for depth := 2; depth <= 9; depth++ {
 		chain := []c10Op{{"root", 0, 0, 0}}
 		for i := 0; i < depth-1; i++ {
